@@ -206,7 +206,7 @@ def single_layer_pools(tier):
     return pools
 
 
-def run_single_layer(run: core.Run, stats) -> None:
+def run_single_layer(run: core.Run, stats, prop: str = "C02") -> None:
     base = {"os_name": "posix", "sys_platform": "linux", "platform_machine": "x86_64", "platform_system": "Linux",
             "platform_release": "5.10", "implementation_name": "cpython", "platform_python_implementation": "CPython",
             "python_version": "3.9", "python_full_version": "3.9.1", "extra": set(), "implementation_version": "3.9.1",
@@ -226,7 +226,7 @@ def run_single_layer(run: core.Run, stats) -> None:
                     if not isinstance(x, bool) or not isinstance(y, bool):
                         return None
                     return comb(x, y)
-                check_expr(run, "C02", E(kind, E("leaf", a), E("leaf", b)), envs, tr, stats)
+                check_expr(run, prop, E(kind, E("leaf", a), E("leaf", b)), envs, tr, stats)
 
 
 def run_c02(run: core.Run, n: int) -> None:
@@ -718,6 +718,10 @@ def run_shape(run: core.Run, prop: str, n: int) -> None:
     rng = run.rng
     stats = {"timeouts": 0, "oracle": 0, "evals": 0, "eval_budget": 0}
     specials = ["", "<empty>"]
+    if prop == "C15":
+        # the complete `&` / `|` table between single markers on one variable (atoms and groups): every result in normal
+        # form, groups included (seed C15g: a group left with one or no value)
+        run_single_layer(run, stats, "C15")
     for i in range(n):
         a = mk.marker_text(rng, rng.choice([0, 1, 2, 2] if run.tier == "quick" else [0, 1, 2, 3]))
         b = mk.marker_text(rng, rng.choice([0, 1, 2]))
